@@ -141,6 +141,7 @@ func (p *TransportLayerNack) Unmarshal(rawPacket []byte) error {
 	}
 
 	p.SenderSSRC = binary.BigEndian.Uint32(rawPacket[headerLength:])
+	p.Nacks = nil
 	p.MediaSSRC = binary.BigEndian.Uint32(rawPacket[headerLength+ssrcLength:])
 	for i := headerLength + nackOffset; i < (headerLength + 4*int(h.Length)); i += 4 {
 		p.Nacks = append(p.Nacks, NackPair{
